@@ -229,11 +229,13 @@ Unspecified(c) == c.kind = "exc" /\ c.exc = "ZeroDivisionError" /\ ZeroDen(Subst
 \* features of a case that enter the signature of a violation
 Feature(c) ==
    LET m == c.m e == c.e
-       q   == \E i \in DOMAIN m : \E t \in Subterms(e) : IsQ(t) /\ FreeVars(m[i].k) \cap Bound(t) # {}
+       sub == Subterms(e)
+       qs  == {t \in sub : IsQ(t)}
+       q   == qs # {} /\ \E i \in DOMAIN m : LET fv == FreeVars(m[i].k) IN fv # {} /\ \E t \in qs : fv \cap Bound(t) # {}
        nst == \E i \in DOMAIN m : \E j \in DOMAIN m : i # j /\ m[i].k \in Subterms(m[j].k)
        chn == \E i \in DOMAIN m : \E j \in DOMAIN m : i # j /\ m[j].k \in Subterms(m[i].v)
        cmp == \E i \in DOMAIN m : m[i].k.args # <<>>
-       hit == \E i \in DOMAIN m : m[i].k \in Subterms(e)
+       hit == \E i \in DOMAIN m : m[i].k \in sub
    IN <<MapVerdict(m),
         IF q THEN "key-has-bound-var" ELSE IF nst THEN "nested-keys" ELSE IF chn THEN "key-in-value"
         ELSE IF cmp THEN "compound-key" ELSE IF hit THEN "leaf-key" ELSE "no-occurrence">>
